@@ -19,6 +19,7 @@
 //   perturbs <obj> <stepSize> <maxSteps> <maxEmpty> <snap> <kh> <h>*kh <ks> <state>*ks     (whole routines, scripted draws)
 //   reduce <maxSteps> <maxEmpty> <rangeRatio> <k> <raw>*k
 //   pshort <maxSteps> <maxEmpty> <rangeRatio> <snap> <k> <u>*k
+//   ropeo <obj> <delta> <eqTol>                                                  (ropeShortcutPath under an objective; deterministic)
 //   pshorto <obj> <maxSteps> <maxEmpty> <rangeRatio> <snap> <k> <u>*k           (partialShortcutPath under an objective, scripted draws)
 //   rnd <seed> <obj> (reduce ms me rr | pshort ms me rr snap | collapse ms me | rope delta tol | bspline steps minChange
 //                     | perturb step ms me snap | bettergoal evalK attempts rr snap | simplify evalK atLeastOnce | simplifymax)
@@ -865,9 +866,9 @@ int main()
             c.mv->log.clear();
             c.mv->asked = 0;
             {
-                const bool nonAdditive = objName == "toll" || objName == "tolli" || objName == "step" || objName == "stepi" || objName == "checker" ||
-                                         objName == "clear";
-                c.mv->budget = (rt == "rope" && nonAdditive) ? 150000UL : ~0UL;
+                const std::string on = (rt == "ropeo" && t.size() > k + 1) ? t[k + 1] : objName;
+                const bool nonAdditive = on == "toll" || on == "tolli" || on == "step" || on == "stepi" || on == "checker" || on == "clear";
+                c.mv->budget = ((rt == "rope" || rt == "ropeo") && nonAdditive) ? 150000UL : ~0UL;
             }
             bool known = true;
             // pre-compute validSegmentCount for `interp` (oracle for the model)
@@ -887,6 +888,15 @@ int main()
             {
                 nargs(2);
                 ret = ps.ropeShortcutPath(p, argF(1), argF(2));
+            }
+            else if (!rnd && rt == "ropeo")
+            {
+                // ropeo <obj> <delta> <eqTol>: ropeShortcutPath of a simplifier constructed with the objective (deterministic)
+                nargs(3);
+                obj = makeObj(c, t.at(k + 1));
+                og::PathSimplifier ps2(c.si, goal, obj);
+                cost0 = p.cost(obj).value();
+                ret = ps2.ropeShortcutPath(p, argF(2), argF(3));
             }
             else if (!rnd && rt == "subdivide")
             {
